@@ -164,8 +164,8 @@ impl Row {
         });
         let mut prev_attrs = prev_attrs.unwrap_or_default();
 
-        let first_cell = &self.cells[usize::from(start)];
-        if wrapping && first_cell == &default_cell {
+        let first_cell = self.cells.get(usize::from(start));
+        if wrapping && first_cell == Some(&default_cell) {
             let default_attrs = default_cell.attrs();
             if &prev_attrs != default_attrs {
                 default_attrs.write_escape_code_diff(contents, &prev_attrs);
@@ -300,15 +300,21 @@ impl Row {
     ) -> (crate::grid::Pos, crate::attrs::Attrs) {
         let mut prev_was_wide = false;
 
-        let first_cell = &self.cells[usize::from(start)];
-        let prev_first_cell = &prev.cells[usize::from(start)];
-        if wrapping
-            && !prev_wrapping
-            && first_cell == prev_first_cell
-            && prev_pos.row + 1 == row
-            && prev_pos.col
-                >= self.cols() - u16::from(prev_first_cell.is_wide())
-        {
+        let first_cells = self
+            .cells
+            .get(usize::from(start))
+            .zip(prev.cells.get(usize::from(start)));
+        if let Some((first_cell, prev_first_cell)) = first_cells.filter(
+            |(first_cell, prev_first_cell)| {
+                wrapping
+                    && !prev_wrapping
+                    && first_cell == prev_first_cell
+                    && prev_pos.row + 1 == row
+                    && prev_pos.col
+                        >= self.cols()
+                            - u16::from(prev_first_cell.is_wide())
+            },
+        ) {
             let first_cell_attrs = first_cell.attrs();
             if &prev_attrs != first_cell_attrs {
                 first_cell_attrs
